@@ -876,7 +876,12 @@ fn relevant_to(sc: &Scenario, t: &Tid, path: &str) -> bool {
     for (paths, exts, dir) in all {
         let exts: Vec<String> = exts.map(|e| e.into_iter().filter(|x| !x.is_empty()).map(|x| if x.starts_with('.') { x } else { format!(".{}", x) }).collect()).unwrap_or_default();
         for rp in paths {
-            let base = PathBuf::from(format!("{}/{}", dir, rp));
+            // only paths that existed when watching began are watched at all (the kernel resolves
+            // `a/up/..` component by component: `a/up` has to exist)
+            if !existed_at_start(sc, &format!("{}/{}", dir, rp)) {
+                continue;
+            }
+            let base = lexical_normalise(&PathBuf::from(format!("{}/{}", dir, rp)));
             if p == base || p.starts_with(&base) {
                 if exts.is_empty() || exts.iter().any(|e| name.ends_with(e.as_str())) {
                     return true;
@@ -885,6 +890,46 @@ fn relevant_to(sc: &Scenario, t: &Tid, path: &str) -> bool {
         }
     }
     false
+}
+
+/// Does `declared` (relative to the case root, possibly with `..` components) name something
+/// in the scenario's initial tree, every intermediate component included?
+fn existed_at_start(sc: &Scenario, declared: &str) -> bool {
+    let in_tree = |cur: &Path| -> bool {
+        let c = cur.to_string_lossy().into_owned();
+        c.is_empty() || sc.projects.iter().any(|p| p.dir == c || p.dir.starts_with(&format!("{}/", c))) || sc.files.iter().any(|f| f.path == c || f.path.starts_with(&format!("{}/", c)))
+    };
+    let mut cur = PathBuf::new();
+    for comp in Path::new(declared).components() {
+        match comp {
+            std::path::Component::ParentDir => {
+                cur.pop();
+            }
+            std::path::Component::CurDir => {}
+            other => {
+                cur.push(other.as_os_str());
+                if !in_tree(&cur) {
+                    return false;
+                }
+            }
+        }
+    }
+    true
+}
+
+/// `a/b/../c` -> `a/c` (the generated trees have no symbolic links on declared directories)
+fn lexical_normalise(p: &Path) -> PathBuf {
+    let mut out = PathBuf::new();
+    for c in p.components() {
+        match c {
+            std::path::Component::ParentDir => {
+                out.pop();
+            }
+            std::path::Component::CurDir => {}
+            other => out.push(other.as_os_str()),
+        }
+    }
+    out
 }
 
 fn op_paths(op: &FsOp) -> Vec<String> {
@@ -936,6 +981,15 @@ impl Property for C16 {
                 1 => Some(vec!["c".to_string(), ".h".to_string()]),
                 _ => Some(vec![".c".to_string()]),
             };
+            // every eighth target names its directory through a path ending in `..`: notify reports
+            // events under the path as given, and an event on the directory itself (touch, chmod)
+            // carries exactly that path - which has no final component
+            let d = if rng.chance(12) {
+                files.push(FileSpec { path: format!("p0/{}/up", d), kind: FileKind::Dir });
+                format!("{}/up/..", d)
+            } else {
+                d
+            };
             if rng.chance(25) {
                 // the same directory declared twice with different filters
                 t.input.push(Res::Paths { paths: vec![d.clone()], extensions: Some(vec!["c".to_string()]) });
@@ -985,7 +1039,8 @@ impl Property for C16 {
             let d = rng.pick(&dirs).clone();
             let sub = if rng.chance(25) { format!("{}/sub", d) } else { d.clone() };
             let sub = if existing.iter().any(|f| f.starts_with(&format!("{}/", sub))) { sub } else { d.clone() };
-            let op = match rng.weighted(&[22, 14, 10, 12, 22, 10, 10]) {
+            let op = match rng.weighted(&[22, 14, 10, 12, 22, 10, 10, 8]) {
+                7 => FsOp::Touch { path: if rng.chance(70) { d.clone() } else { format!("{}/sub", d) } },
                 0 => {
                     let name = *rng.pick(&["x~", ".a.c.swp", ".b.h.swx", "readme.txt", "core", "Makefile", "y.o"]);
                     let p = format!("{}/{}", sub, name);
@@ -1074,6 +1129,11 @@ impl Property for C16 {
             let effective = applies[ev_idx..ev_idx + ops.len().min(applies.len() - ev_idx)].iter().any(|e| e.field("events").map(|n| n != "0").unwrap_or(false));
             ev_idx += ops.len();
             let next_idle = quiesc.iter().find(|&&q| q > first).copied().unwrap_or(u64::MAX);
+            // a metadata change of a directory is not a change to a file: it may or may not be
+            // looked at, but it must not stop later changes from being reported (next bursts)
+            if ops.iter().all(|o| matches!(o, FsOp::Touch { path } if s.case.root.join(simrt::vfs::decode_path(path)).is_dir())) {
+                continue;
+            }
             let mut rel_targets: BTreeSet<Tid> = BTreeSet::new();
             for op in ops {
                 for p in op_paths(op) {
